@@ -9,8 +9,8 @@ from harness import zones as Z
 
 ID = "C06"
 BACKENDS = ("py", "rs")
-GEN_MODULES = ("Tables", "Helpers", "RsHelpers", "PreciseDiff", "RsPreciseDiff")
-MIN_THEOREMS = 26
+GEN_MODULES = ("Tables", "Helpers", "RsHelpers", "PreciseDiff", "RsPreciseDiff", "Interval:source", "Interval:init", "Interval:components", "Interval:units")
+MIN_THEOREMS = 28
 US = D.US
 DAY = 86400 * US
 YMAX = Z.YMAX_QUICK
